@@ -35,6 +35,7 @@ type ProgOpts struct {
 	Wrap    bool // C12: wrap blocks in 1..3 levels of embedded sub-process
 	Flatten bool // C12: consume the same draws but splice the content in place (the inlined twin)
 	ActivityMultiFork bool // allow several true conditional flows leaving an activity (known-finding trigger)
+	StartFork bool // start events (of the process and of sub-processes) may have a second outgoing flow: an implicit fork right at the start event
 }
 
 type progGen struct {
@@ -394,6 +395,7 @@ func (pg *progGen) blockInner(g *Graph, from string, cond *Cond, outPos int, dep
 		f := g.connect(d, from, s.ID, cond, outPos)
 		st := sg.addNode(&Node{ID: d.fresh("SS"), Kind: "start"})
 		fmt.Fprintf(&pg.desc, "sub%s( ", s.ID)
+		pg.startFork(sg, st.ID)
 		last, _ := pg.block(sg, st.ID, nil, -1, depth+1)
 		e := sg.addNode(&Node{ID: d.fresh("SE"), Kind: "end"})
 		sg.connect(d, last, e.ID, nil, -1)
@@ -401,6 +403,21 @@ func (pg *progGen) blockInner(g *Graph, from string, cond *Cond, outPos int, dep
 		return s.ID, f.ID
 	}
 	panic("unknown kind " + kind)
+}
+
+// startFork may give the start event stID a second outgoing flow (listed first or second) to a side task that
+// ends on its own: two tokens leave the start event. Not inside inclusive branches or loops (the side token
+// would be a fork the inclusive join's known finding is about, or be re-created per iteration).
+func (pg *progGen) startFork(g *Graph, stID string) {
+	if !pg.opts.StartFork || pg.inOr > 0 || pg.inLoop > 0 || pg.inAnd > 0 || pg.d.N(3) != 2 {
+		return
+	}
+	t := pg.newTask(g)
+	g.connect(pg.defs, stID, t.ID, nil, -1)
+	e := g.addNode(&Node{ID: pg.defs.fresh("SFE"), Kind: "end"})
+	g.connect(pg.defs, t.ID, e.ID, nil, -1)
+	pg.tags["start-fork"] = true
+	fmt.Fprintf(&pg.desc, "startfork(%s) ", t.ID)
 }
 
 // Program is a generated single-process program with its initial data.
@@ -421,6 +438,7 @@ func GenProgram(d *Draw, opts ProgOpts) *Program {
 	defs.Procs = []*Graph{g}
 	pg := &progGen{d: d, defs: defs, opts: opts, vars: map[string]any{}, tags: map[string]bool{}, written: map[string]bool{}}
 	st := g.addNode(&Node{ID: "Start", Kind: "start"})
+	pg.startFork(g, st.ID)
 	n := 1 + d.N(2)
 	cur := st.ID
 	for i := 0; i < n; i++ {
